@@ -35,6 +35,7 @@ var lpInputs = map[string]string{
 	"lp_comment_first":    "# exported by a tool\n# second comment line\n" + lpInput,
 	"lp_blank_first":      "\n\n" + lpInput,
 	"lp_bom":              "\xef\xbb\xbf" + lpInput,
+	"lp_same_key":         "m1,t1=a,dup=tagside f1=1i,f2=\"s\",dup=\"fieldside\",ts=\"2021-03-04 05:06:07\",message=\"lpmsg\" 1600000000000000000\nm2,t9=z f9=9i 1600000001000000000\n",
 	"lp_newline_in_field": "m1,t1=a f1=1i,f2=\"line one\nline two\",ts=\"2021-03-04 05:06:07\",message=\"lpmsg\" 1600000000000000000\nm2,t9=z f9=9i 1600000001000000000\n",
 }
 
